@@ -15,7 +15,7 @@ import (
 func init() {
 	register(&Property{
 		ID:          "C02",
-		Explanation: "Per-operation necessary conditions of 'the selectable set equals the set defined by the add/update/remove calls'. R1: for each pool (RoundRobin.servers, Rebalancer.servers) every append to the pool is executable only on the not-found edge of the identity lookup for the same URL argument (decided exactly by deleting that edge and testing reachability of the append), so an upsert never creates a second record for a member. R2: RemoveServer returns a non-nil error and performs no store on the not-found edge, and on its success path removes the record and passes the reset; the rebalancer's upsert/remove pass, in order, the call on the wrapped balancer, the shadow-list update and reset(), and every error return precedes any shadow-list store. R3: in both ServeHTTPs the selection-error edge reaches the error handler and a return without reaching the downstream handler; the selection routine returns a non-nil error on the empty-pool edge and on the zero-maximum edge. R4: one identity function over exactly {Scheme, Host, Path}: every lookup of a pool record by URL calls it, and the sticky-cookie comparator and the hash normaliser use the same field set. R5 (ownership): every URL stored into the request handed downstream (and returned by exported NextServer) is the result of utils.CopyURL or of NextServer, and every URL stored into a new pool record is a CopyURL of the caller's argument — so nothing a downstream handler or caller does to its URL alters the pool.",
+		Explanation: "Per-operation necessary conditions of 'the selectable set equals the set defined by the add/update/remove calls'. R1: for each pool (RoundRobin.servers, Rebalancer.servers) every append to the pool is executable only on the not-found edge of the identity lookup for the same URL argument (decided exactly by deleting that edge and testing reachability of the append), so an upsert never creates a second record for a member. R2: RemoveServer returns a non-nil error and performs no store on the not-found edge, and on its success path removes the record and passes the reset; the rebalancer's upsert/remove pass, in order, the call on the wrapped balancer, the shadow-list update and reset(), and every error return precedes any shadow-list store. R3: in both ServeHTTPs the selection-error edge reaches the error handler and a return without reaching the downstream handler; the selection routine returns a non-nil error on the empty-pool edge and on the zero-maximum edge. R4: one identity function over exactly {Scheme, Host, Path}: every lookup of a pool record by URL calls it, and the sticky-cookie comparator and the hash normaliser use the same field set. R5 (ownership): every URL stored into the request handed downstream (and returned by exported NextServer) is the result of utils.CopyURL or of NextServer, and every URL stored into a new pool record is a CopyURL of the caller's argument — so nothing a downstream handler or caller does to its URL alters the pool. R6: every UpsertServer/RemoveServer call on the wrapped balancer, on every call path from every exported method of the rebalancer, is made with the rebalancer mutex held exclusively (must-lockset at call sites), so the shadow list and the wrapped pool change atomically. R7 (= C01.R2): every pool change resets the rotation state.",
 		NotDecided: []string{
 			"'an added server with positive weight is selected within one full rotation' (follows from the arithmetic of C01, not decided)",
 			"agreement with a reference set after every prefix of every history as a whole: the rules are the per-operation necessary conditions of it",
